@@ -38,6 +38,7 @@ import (
 	memdb "git.defalsify.org/vise.git/db/mem"
 	"git.defalsify.org/vise.git/engine"
 	"git.defalsify.org/vise.git/lang"
+	"git.defalsify.org/vise.git/logging"
 	"git.defalsify.org/vise.git/persist"
 	"git.defalsify.org/vise.git/render"
 	"git.defalsify.org/vise.git/resource"
@@ -409,17 +410,27 @@ type ccSession struct {
 	store     db.Db
 	dead      bool
 	steps     []ccStep
-	first     []ccFres // script of this session's entry function (engine.WithFirst); nil: none
-	debug     int      // 0: no; 1: state-debug mode (Config.StateDebug / State.UseDebug); 2: also Config.EngineDebug and an engine debugger
-	fsdir     string   // persisted sessions: "" = a db/mem store of its own, else a db/fs directory (shared with other sessions), a new handle per request
+	first     []ccFres           // script of this session's entry function (engine.WithFirst); nil: none
+	debug     int                // 0: no; 1: state-debug mode (Config.StateDebug / State.UseDebug); 2: also Config.EngineDebug and an engine debugger
+	lang      *string            // its own Config.Language (nil: the case's)
+	sharedPe  *persist.Persister // long-lived server shape: THE persister (WithFlush) every request of every session goes through
+	applog    bool               // the application logs through the library's logging API (one logger for all sessions)
+	fsdir     string             // persisted sessions: "" = a db/mem store of its own, else a db/fs directory (shared with other sessions), a new handle per request
 }
 
 // deployment shape of one run (nil = the plain one)
 type ccExtra struct {
-	debug []int  // per session
-	fs    []bool // per session: persisted over the filesystem directory fsdir
-	fsdir string // concurrent/interleaved run: THE directory; solo runs: every session gets a sub-directory of its own
+	debug  []int    // per session
+	fs     []bool   // per session: persisted over the filesystem directory fsdir
+	fsdir  string   // concurrent/interleaved run: THE directory; solo runs: every session gets a sub-directory of its own
+	langs  []string // per session: its Config.Language
+	shared bool     // ONE persister created WithFlush (over one db/mem store) reused for every request of every session
+	applog bool     // sessions log through the application's logger
 }
+
+// the application's logger: a value of the library's logger type at a level that emits, shared (by value)
+// by everything the application does for any session; lines go to logging.LogWriter (io.Discard)
+var ccAppLog = logging.NewVanilla().WithDomain("ccapp").WithLevel(logging.LVL_TRACE)
 
 func (x *ccExtra) apply(s *ccSession, i int, solo bool) error {
 	if x == nil {
@@ -428,6 +439,12 @@ func (x *ccExtra) apply(s *ccSession, i int, solo bool) error {
 	if x.debug != nil {
 		s.setDebug(x.debug[i])
 	}
+	if x.langs != nil && s.persisted {
+		l := x.langs[i]
+		s.lang = &l
+		s.cfg.Language = l
+	}
+	s.applog = x.applog
 	if x.fs != nil && x.fs[i] && s.persisted {
 		d := x.fsdir
 		if solo {
@@ -466,7 +483,7 @@ func (x *ccExtra) desc() map[string]interface{} {
 	if x == nil {
 		return nil
 	}
-	return map[string]interface{}{"debug": x.debug, "fs": x.fs}
+	return map[string]interface{}{"debug": x.debug, "fs": x.fs, "langs": x.langs, "shared_flush_persister": x.shared, "applog": x.applog}
 }
 
 // user flags were given names (state.FlagDebugger.Register) by this process
@@ -547,6 +564,9 @@ func (s *ccSession) request(in []byte) bool {
 			return true
 		}
 		pe = persist.NewPersister(store)
+		if s.sharedPe != nil {
+			pe = s.sharedPe
+		}
 		en = engine.NewEngine(s.cfg, s.rs).WithPersister(pe)
 		if s.debug == 2 {
 			en = en.WithDebug(engine.NewSimpleDebug(io.Discard))
@@ -555,10 +575,16 @@ func (s *ccSession) request(in []byte) bool {
 			en = en.WithFirst(ccScripted(s.w, "_first", s.first))
 		}
 	}
+	if s.applog {
+		ccAppLog.DebugCtxf(ctx, "request", "session", s.cfg.SessionId, "input", in)
+	}
 	panicked, pv := hx.Recover(func() {
 		c, err := en.Exec(ctx, in)
 		step.Cont = c
 		step.Exec = ccErrClass(err)
+		if s.applog {
+			ccAppLog.Infof("executed", "session", s.cfg.SessionId, "continue", c, "err", err)
+		}
 		w := bytes.NewBuffer(nil)
 		_, ferr := en.Flush(ctx, w)
 		out = w.Bytes()
@@ -621,7 +647,11 @@ func (s *ccSession) obsTerm() string {
 	if s.first != nil {
 		first = "(Some " + ccFresList(s.first) + ")"
 	}
-	return fmt.Sprintf("(%s, %s, %s)", hx.Bool(s.persisted), first, hx.List(st))
+	lg := "None"
+	if s.lang != nil {
+		lg = "(Some " + hx.S(*s.lang) + ")"
+	}
+	return fmt.Sprintf("(mkSessObs %s %s %s %s)", hx.Bool(s.persisted), first, lg, hx.List(st))
 }
 
 func (s *ccSession) soloTerm() string {
@@ -688,7 +718,10 @@ var ccSelPool = []string{"0", "1", "2", "3", "9", "a", "x1"}
 
 // applications made of CATCH / MOVE / INCMP chains: before its first HALT a node moves only forward
 // (so that no cycle avoids a HALT), INCMP may lead anywhere
-func ccGenApp(r *rand.Rand) ccGen {
+func ccGenApp(r *rand.Rand) ccGen { return ccGenAppOpt(r, false) }
+
+// noload: no LOAD / RELOAD anywhere (nothing ever enters the cache)
+func ccGenAppOpt(r *rand.Rand, noload bool) ccGen {
 	flagCount := ccPick(r, []int{4, 4, 2, 8})
 	nn := 2 + r.Intn(4)
 	nodes := append([]string{"root"}, ccNodePool[:nn]...)
@@ -744,6 +777,9 @@ func ccGenApp(r *rand.Rand) ccGen {
 			var mapped []string
 			for i := 0; i < np; i++ {
 				k := r.Intn(100)
+				if noload && k < 40 {
+					k = 40 + r.Intn(60)
+				}
 				switch {
 				case k < 30:
 					s := ccPick(r, syms)
@@ -836,6 +872,50 @@ func ccGenApp(r *rand.Rand) ccGen {
 	return ccGen{app: a, cfg: c, sels: sels, desc: desc}
 }
 
+var ccLangs = []string{"nor", "swa", "fra", "eng"}
+
+// an application with a language-switching function (lang1: answers a language code and sets FLAG_LANG, as in the
+// engine driver) loaded by one or two nodes, and translated templates for some nodes and languages
+func ccGenLangApp(r *rand.Rand, withFunc bool) ccGen {
+	g := ccGenAppOpt(r, !withFunc)
+	a := g.app
+	if !withFunc {
+		ccTranslate(r, a)
+		return g
+	}
+	n := 1 + r.Intn(3)
+	var sc []ccFres
+	for i := 0; i < n; i++ {
+		sc = append(sc, ccFres{Content: ccPick(r, []string{"nor", "swa", "fra", "eng", "nor", "swa", "xx", ""}), Set: []uint32{state.FLAG_LANG}})
+	}
+	a.Funcs = append(a.Funcs, "lang1")
+	a.Fn["lang1"] = sc
+	load := string(ccLine(vm.LOAD, []string{"lang1"}, []byte{0}, nil))
+	for k := 0; k < 1+r.Intn(2); k++ {
+		i := r.Intn(len(a.Code) - 1) // not _catch (the last one)
+		if !strings.HasPrefix(a.Code[i].V, load) {
+			a.Code[i].V = load + a.Code[i].V
+			g.desc[i] = strings.Replace(g.desc[i], ": ", ": LOAD lang1 0; ", 1)
+		}
+	}
+	ccTranslate(r, a)
+	return g
+}
+
+// translated templates for about half of the (node, language) pairs
+func ccTranslate(r *rand.Rand, a *ccApp) {
+	var tr []ccKV
+	for _, t := range a.Tpl {
+		for _, l := range ccLangs {
+			if r.Intn(2) == 0 {
+				tr = append(tr, ccKV{t.K + "_" + l, l + ":" + t.V})
+			}
+		}
+	}
+	a.Tpl = append(a.Tpl, tr...)
+	sort.Slice(a.Tpl, func(i, j int) bool { return a.Tpl[i].K < a.Tpl[j].K })
+}
+
 func ccGenHistory(r *rand.Rand, sels []string, n int) [][]byte {
 	h := [][]byte{{}}
 	for i := 0; i < n; i++ {
@@ -917,6 +997,9 @@ func ccSolo(g ccGen, pers []bool, firsts [][]ccFres, hist [][][]byte, x *ccExtra
 		if err := x.apply(s, i, true); err != nil {
 			return nil, err
 		}
+		if x != nil && x.shared && s.persisted {
+			s.sharedPe = persist.NewPersister(s.store).WithFlush() // alone: a flush persister of its own, reused for its requests
+		}
 		if firsts != nil {
 			s.withFirst(firsts[i])
 		}
@@ -935,6 +1018,14 @@ func ccInterleaved(r *rand.Rand, g ccGen, pers []bool, firsts [][]ccFres, hist [
 	sh := ccMakeShared(g.app)
 	run := &ccRun{}
 	pos := make([]int, len(hist))
+	var sharedStore db.Db
+	var sharedPe *persist.Persister
+	if x != nil && x.shared {
+		m := memdb.NewMemDb()
+		m.Connect(context.Background(), "")
+		sharedStore = m
+		sharedPe = persist.NewPersister(m).WithFlush()
+	}
 	for i := range hist {
 		s, err := ccNewSession(g.app, g.cfg, sh, i, pers[i])
 		if err != nil {
@@ -942,6 +1033,10 @@ func ccInterleaved(r *rand.Rand, g ccGen, pers []bool, firsts [][]ccFres, hist [
 		}
 		if err := x.apply(s, i, false); err != nil {
 			return nil, err
+		}
+		if sharedPe != nil && s.persisted {
+			s.store = sharedStore
+			s.sharedPe = sharedPe
 		}
 		if firsts != nil {
 			s.withFirst(firsts[i])
@@ -1472,7 +1567,58 @@ func init() {
 	drivers["race"] = ccRunRace
 }
 
+// probe (not part of the check): the long-lived-server shape with applications that DO load symbols into the
+// cache (and a language function).  On the unchanged library a reused WithFlush persister leaks between
+// sessions: Save's flush (Memory.Reset + Pop) leaves Sizes entries of deeper frames and LastValue behind, the next
+// session's record is decoded INTO those leftover objects, and a request that ends without a saving Finish (entry
+// function sets TERMINATE: engine not initialised) leaves the whole state of that session for the next one.
+// Prints the first difference of every case against the solo runs.
+func ccProbeFlushReuse(o opts) error {
+	diffs, n := 0, 30
+	for i := 0; i < n; i++ {
+		r := hx.Rng(o.seed, "probe-flushreuse", i)
+		g := ccGenLangApp(r, true)
+		k := 2 + r.Intn(3)
+		pers := make([]bool, k)
+		hist := make([][][]byte, k)
+		x := &ccExtra{shared: true, langs: make([]string, k)}
+		for j := 0; j < k; j++ {
+			pers[j] = true
+			hist[j] = ccGenHistory(r, g.sels, 2+r.Intn(5))
+			x.langs[j] = ccLangs[(i+j)%len(ccLangs)]
+		}
+		run, err := ccInterleaved(r, g, pers, nil, hist, x)
+		if err != nil {
+			return err
+		}
+		solo, err := ccSolo(g, pers, nil, hist, x)
+		if err != nil {
+			return err
+		}
+		if ccGoMonitor(run, solo) {
+			continue
+		}
+		diffs++
+	found:
+		for si, s := range run.sessions {
+			for j := range s.steps {
+				a, b := s.steps[j], solo[si].steps[j]
+				if a.Cont != b.Cont || a.Exec != b.Exec || a.Out != b.Out || a.Flush != b.Flush || a.snap != b.snap {
+					fmt.Printf("case %d session %d request %d input %q: shared persister: cont=%v exec=%s out=%q\n   stored %s\n  alone: cont=%v exec=%s out=%q\n   stored %s\n  nodes %q schedule %v\n",
+						i, si, j, a.Input, a.Cont, a.Exec, a.Out, a.snap, b.Cont, b.Exec, b.Out, b.snap, g.desc, run.sched)
+					break found
+				}
+			}
+		}
+	}
+	fmt.Printf("probe: %d of %d cases differ from the solo runs on this library\n", diffs, n)
+	return nil
+}
+
 func ccRunAlias(o opts) error {
+	if o.replay == "probe:flushreuse" {
+		return ccProbeFlushReuse(o)
+	}
 	pre, stats, err := ccSelftest()
 	if err != nil {
 		return err
@@ -1511,7 +1657,13 @@ func ccRunAlias(o opts) error {
 	for i := 0; i < na; i++ {
 		r := hx.Rng(o.seed, "alias-app", i)
 		stop := ccWatchdog(fmt.Sprintf("alias application case %d (seed %d)", i, o.seed))
-		g := ccGenApp(r)
+		shared := i%3 == 2
+		var g ccGen
+		if shared {
+			g = ccGenLangApp(r, false)
+		} else {
+			g = ccGenApp(r)
+		}
 		k := 2 + r.Intn(3)
 		pers := make([]bool, k)
 		hist := make([][][]byte, k)
@@ -1525,16 +1677,34 @@ func ccRunAlias(o opts) error {
 		}
 		// 40 % of the sessions get an entry function of their own (per-request engines run it on every request)
 		firsts := ccGenFirsts(hx.Rng(o.seed, "alias-first", i), k, g.cfg.FlagCount, 40)
-		run, err := ccInterleaved(r, g, pers, firsts, hist, nil)
+		// every third application case in the shape of a long-lived server: ONE persister created WithFlush, reused for
+		// every request of every session (one goroutine), every session with a Config.Language of its own
+		kind := "app-interleaved"
+		var x *ccExtra
+		if shared {
+			kind = "app-shared-persister"
+			rx := hx.Rng(o.seed, "alias-shape", i)
+			x = &ccExtra{shared: true, langs: make([]string, k)}
+			perm := rx.Perm(len(ccLangs))
+			firsts = nil
+			for j := 0; j < k; j++ {
+				pers[j] = true
+				x.langs[j] = ccLangs[perm[j%len(ccLangs)]]
+				if rx.Intn(5) == 0 {
+					x.langs[j] = ""
+				}
+			}
+		}
+		run, err := ccInterleaved(r, g, pers, firsts, hist, x)
 		if err != nil {
 			return err
 		}
-		solo, err := ccSolo(g, pers, firsts, hist, nil)
+		solo, err := ccSolo(g, pers, firsts, hist, x)
 		if err != nil {
 			return err
 		}
 		stop()
-		w.Add(ccAppCase("app-interleaved", g, run, solo, nil))
+		w.Add(ccAppCase(kind, g, run, solo, map[string]interface{}{"shape": x.desc()}))
 		if !ccGoMonitor(run, solo) {
 			w.Count("go_monitor_flagged")
 		}
@@ -1699,6 +1869,12 @@ func ccRunRace(o opts) error {
 		var x *ccExtra
 		rx := hx.Rng(o.seed, "race-shape", i)
 		switch i % 3 {
+		case 0:
+			if i%2 == 0 {
+				// the application logs every request through ONE library logger (a value type, copied freely) that emits
+				kind = "app-concurrent-log"
+				x = &ccExtra{applog: true}
+			}
 		case 1:
 			kind = "app-concurrent-debug"
 			x = &ccExtra{debug: make([]int, k)}
